@@ -381,6 +381,13 @@ func (m *ldbManager) Add(transaction Transaction) error {
 }
 func (m *ldbManager) Pop() error {
 	frontierIdentifier := GetFrontierIdentifier(m.Frontier())
+
+	m.changes.Lock()
+	defer m.changes.Unlock()
+	// cached overlays were computed along the branch that is being abandoned
+	m.l1Cache.Purge()
+	m.l2Cache.Purge()
+
 	rollbackPatch := m.getRollback(frontierIdentifier.Height)
 
 	if err := ApplyPatch(NewLevelDBWrapper(m.ldb).Subset(frontierByte), rollbackPatch); err != nil {
